@@ -43,7 +43,15 @@ pub async fn seed_dataset(
         let nrows = 1 + sim::w(4) as usize;
         // a quarter of the chunks carry extreme values (both zeros, NaN, infinities, subnormals, NULL)
         let extreme = sim::w(4) == 3;
-        let rows: Vec<Row> = (0..nrows).map(|i| gen.row(base_ts + b * HOUR + (c as i64 * 10 + i as i64) * SEC, extreme)).collect();
+        // one chunk in five lies across the end of its hour bucket (indexed under two buckets, grouped under one)
+        let straddle = sim::w(5) == 4;
+        let nrows = if straddle { nrows.max(2) } else { nrows };
+        let rows: Vec<Row> = (0..nrows)
+            .map(|i| {
+                let ts = if straddle { base_ts + (b + 1) * HOUR - 5 * SEC + (i as i64) * 10 * SEC + c as i64 } else { base_ts + b * HOUR + (c as i64 * 10 + i as i64) * SEC };
+                gen.row(ts, extreme)
+            })
+            .collect();
         let rb = batch(variant, &rows);
         let bytes = pw.write_batch(&rb).expect("parquet");
         let path = format!("default/data/seed/chunk_{c}.parquet");
@@ -87,21 +95,12 @@ fn raise_to<'a>(
     })
 }
 
-/// Level of a chunk as the object-store catalog records it (0 if unknown / in-memory backend).
-pub async fn level_of(_meta: &dyn MetadataClient, inner: &Arc<InMemory>, path: &str) -> u32 {
-    match catalog_now(inner).await {
-        Some(c) => c.chunks.get(path).map(|e| e.level).unwrap_or(0),
-        None => {
-            // in-memory backend: probe through candidates
-            for l in 1..6usize {
-                if let Ok(groups) = _meta.get_level_candidates(l, usize::MAX).await {
-                    if groups.iter().flatten().any(|p| p == path) {
-                        return l as u32;
-                    }
-                }
-            }
-            0
-        }
+/// Level of a chunk: from the stored catalog (object-store backend) or through the guarded read-only observer
+/// (in-memory backend).
+pub async fn level_of(local: Option<&cardinalsin::metadata::LocalMetadataClient>, inner: &Arc<InMemory>, path: &str) -> u32 {
+    match local {
+        Some(l) => l.verif_chunk_level(path).unwrap_or(0),
+        None => catalog_now(inner).await.and_then(|c| c.chunks.get(path).map(|e| e.level)).unwrap_or(0),
     }
 }
 
